@@ -186,10 +186,13 @@ def runL (intended : Bool) (s : LState) : List Op → LState × List Out
 
 /-! ## lock discipline: `with self.lock: body`
 
-Small-step system for several threads using one cache.  Each thread has a program (list of operations).
-A thread is `idle`, or `holding` the lock with its body still to run, or `done`-with-body waiting to release.
-`sched` is the list of thread numbers chosen by the scheduler; a choice that cannot move (lock taken) is a no-op.
-`acq` records the operations in lock-acquisition order, `outs` what each thread got back. -/
+Small-step system for any number of threads using one cache.  Each thread has a program (list of operations).
+A thread is `idle`, or `holding` the lock with its body still to run, or has `ran` its body and not yet released.
+The scheduler picks a thread number at each step; a choice that cannot move (lock taken, program finished) is
+a no-op.  The body of a method is one step: that it is atomic once the lock is held is the contract of
+`threading.Lock` plus the lock discipline of the code (checked by the monitor of the correspondence harness).
+`acq` records (thread, operation) in lock-acquisition order; `ran` (ghost) records (thread, operation, result)
+in the order the bodies ran. -/
 
 inductive Phase where
   | idle
@@ -201,38 +204,45 @@ structure Thread where
   prog : List Op
   phase : Phase
   outs : List Out
-  deriving Repr
 
 structure Sys (σ : Type) where
   shared : σ
   lock : Option Nat
-  threads : List Thread
-  acq : List Op
+  threads : Nat → Thread
+  acq : List (Nat × Op)
+  ran : List (Nat × Op × Out)
 
-def setThread (ts : List Thread) (i : Nat) (t : Thread) : List Thread := ts.set i t
+def upd (f : Nat → Thread) (i : Nat) (t : Thread) : Nat → Thread := fun j => if j = i then t else f j
 
 def sysStep {σ : Type} (step : σ → Op → σ × Out) (y : Sys σ) (i : Nat) : Sys σ :=
-  match y.threads[i]? with
-  | none => y
-  | some t =>
-    match t.phase, t.prog with
-    | .idle, [] => y
-    | .idle, op :: _ =>
-      match y.lock with
-      | some _ => y                                   -- blocked in `acquire`
-      | none => { y with lock := some i, threads := setThread y.threads i { t with phase := .holding },
-                         acq := y.acq ++ [op] }
-    | .holding, [] => y
-    | .holding, op :: rest =>
-      let r := step y.shared op
-      { y with shared := r.1, threads := setThread y.threads i { prog := rest, phase := .ran, outs := t.outs ++ [r.2] } }
-    | .ran, _ => { y with lock := none, threads := setThread y.threads i { t with phase := .idle } }
+  let t := y.threads i
+  match t.phase, t.prog with
+  | .idle, [] => y
+  | .idle, op :: _ =>
+    match y.lock with
+    | some _ => y                                   -- blocked in `acquire`
+    | none => { y with lock := some i, threads := upd y.threads i { t with phase := .holding },
+                       acq := y.acq ++ [(i, op)] }
+  | .holding, [] => y
+  | .holding, op :: rest =>
+    let r := step y.shared op
+    { y with shared := r.1, ran := y.ran ++ [(i, op, r.2)],
+             threads := upd y.threads i { prog := rest, phase := .ran, outs := t.outs ++ [r.2] } }
+  | .ran, _ => { y with lock := none, threads := upd y.threads i { t with phase := .idle } }
 
 def sysRun {σ : Type} (step : σ → Op → σ × Out) (y : Sys σ) : List Nat → Sys σ
   | [] => y
   | i :: rest => sysRun step (sysStep step y i) rest
 
-def sysInit {σ : Type} (s : σ) (progs : List (List Op)) : Sys σ :=
-  { shared := s, lock := none, threads := progs.map (fun p => { prog := p, phase := .idle, outs := [] }), acq := [] }
+def sysInit {σ : Type} (s : σ) (progs : Nat → List Op) : Sys σ :=
+  { shared := s, lock := none, threads := fun i => { prog := progs i, phase := .idle, outs := [] }, acq := [], ran := [] }
+
+/-- the sequential object: run a list of operations one after the other -/
+def runG {σ : Type} (step : σ → Op → σ × Out) (s : σ) : List Op → σ × List Out
+  | [] => (s, [])
+  | op :: rest =>
+    let r := step s op
+    let q := runG step r.1 rest
+    (q.1, r.2 :: q.2)
 
 end Model.Cache
